@@ -139,12 +139,109 @@ func rulesMashAdd(c *Ctx, r *Report) {
 		})
 	}
 	find(fd.Body, seqs)
+	// the outer loop as the rules below see it: its body, the per-iteration sequence variable, a node that marks it
+	var outerBody *ast.BlockStmt
+	var outerSeq types.Object
+	var outerMark ast.Node
+	var outerPos token.Pos
+	if outer != nil {
+		outerBody, outerSeq, outerMark, outerPos = outer.Body, identObj(info, outer.Value), outer.X, outer.Pos()
+	} else if seqs != nil {
+		// an index loop over seqs: `for i := 0; i < len(seqs); i++`, `for i := range len(seqs)`, `for i := range seqs`,
+		// whose body starts from `seq := seqs[i]` with i not assigned in the body
+		seqAt := func(body *ast.BlockStmt, iv types.Object) types.Object {
+			var sv types.Object
+			assigned := false
+			ast.Inspect(body, func(n ast.Node) bool {
+				switch x := n.(type) {
+				case *ast.AssignStmt:
+					for k, l := range x.Lhs {
+						if identObj(info, l) == iv {
+							assigned = true
+						}
+						if x.Tok == token.DEFINE && len(x.Lhs) == len(x.Rhs) {
+							if ix, ok := ast.Unparen(x.Rhs[k]).(*ast.IndexExpr); ok && identObj(info, ix.X) == seqs && identObj(info, ix.Index) == iv && sv == nil {
+								if lid, ok := l.(*ast.Ident); ok {
+									sv = info.Defs[lid]
+								}
+							}
+						}
+					}
+				case *ast.IncDecStmt:
+					if identObj(info, x.X) == iv {
+						assigned = true
+					}
+				}
+				return true
+			})
+			if assigned {
+				return nil
+			}
+			return sv
+		}
+		isLenSeqs := func(e ast.Expr) bool {
+			call, ok := ast.Unparen(e).(*ast.CallExpr)
+			if !ok || len(call.Args) != 1 {
+				return false
+			}
+			id, ok := ast.Unparen(call.Fun).(*ast.Ident)
+			if !ok {
+				return false
+			}
+			b, ok := info.Uses[id].(*types.Builtin)
+			return ok && b.Name() == "len" && identObj(info, call.Args[0]) == seqs
+		}
+		ast.Inspect(fd.Body, func(n ast.Node) bool {
+			if outerBody != nil {
+				return false
+			}
+			switch x := n.(type) {
+			case *ast.ForStmt:
+				as, ok1 := x.Init.(*ast.AssignStmt)
+				cond, ok2 := x.Cond.(*ast.BinaryExpr)
+				post, ok3 := x.Post.(*ast.IncDecStmt)
+				if !ok1 || !ok2 || !ok3 || as.Tok != token.DEFINE || len(as.Lhs) != 1 || len(as.Rhs) != 1 || post.Tok != token.INC || cond.Op != token.LSS {
+					return true
+				}
+				lid, ok := as.Lhs[0].(*ast.Ident)
+				if !ok {
+					return true
+				}
+				iv := info.Defs[lid]
+				zero, isLit := ast.Unparen(as.Rhs[0]).(*ast.BasicLit)
+				if iv == nil || !isLit || zero.Value != "0" || identObj(info, cond.X) != iv || !isLenSeqs(cond.Y) || identObj(info, post.X) != iv {
+					return true
+				}
+				if sv := seqAt(x.Body, iv); sv != nil {
+					outerBody, outerSeq, outerMark, outerPos = x.Body, sv, x.Cond, x.Pos()
+				}
+			case *ast.RangeStmt:
+				if x.Value != nil || x.Key == nil || x.Tok != token.DEFINE {
+					return true
+				}
+				if !(isLenSeqs(x.X) || identObj(info, x.X) == seqs) {
+					return true
+				}
+				iv := identObj(info, x.Key)
+				if iv == nil {
+					return true
+				}
+				if sv := seqAt(x.Body, iv); sv != nil {
+					outerBody, outerSeq, outerMark, outerPos = x.Body, sv, x.X, x.Pos()
+				}
+			}
+			return true
+		})
+		if outerBody != nil && inner == nil {
+			find(outerBody, nil)
+		}
+	}
 	mhAdd := mh          // Add's own sketch parameter (mh may become a helper's parameter below)
 	innerBody := fd.Body // the function body the inner loop lives in
 	var helperCall *ast.CallExpr
-	if outer != nil && inner == nil {
+	if outerBody != nil && inner == nil {
 		// the per-sequence work in a helper of the package: helper(…, seq, …)
-		ast.Inspect(outer.Body, func(n ast.Node) bool {
+		ast.Inspect(outerBody, func(n ast.Node) bool {
 			call, ok := n.(*ast.CallExpr)
 			if !ok || inner != nil {
 				return true
@@ -183,11 +280,11 @@ func rulesMashAdd(c *Ctx, r *Report) {
 			return true
 		})
 	}
-	if outer == nil || inner == nil {
+	if outerBody == nil || inner == nil {
 		r.violated("CANON", where, "k-mer source", c.pos(fd.Pos()), "Add does not range over sequtil.CanonicalSubsequences(...) for each element of seqs")
 		return
 	}
-	seqVar := identObj(info, outer.Value)
+	seqVar := outerSeq
 	if helperCall != nil {
 		// which parameter receives the sequence
 		hdFn, _ := typeutil.Callee(info, helperCall).(*types.Func)
@@ -212,7 +309,7 @@ func rulesMashAdd(c *Ctx, r *Report) {
 	okK := identObj(info, cs.Args[1]) == kParam
 	r.check(okUp && okK, "CANON", where, "k-mer source", c.pos(cs.Pos()), "the k-mers are CanonicalSubsequences(bytes.ToUpper(seq), k) of the sequence itself", fmt.Sprintf("the iterator is not CanonicalSubsequences(bytes.ToUpper(seq), k) applied directly to each sequence (upper-cased unconditionally: %v, k passed through: %v): case or strand variants give different sketches", okUp, okK))
 	// every sequence reaches the inner loop
-	og := cfg.New(outer.Body, mayReturn(info))
+	og := cfg.New(outerBody, mayReturn(info))
 	var innerBlocks []*cfg.Block
 	for _, b := range og.Blocks {
 		for _, nd := range b.Nodes {
@@ -244,7 +341,7 @@ func rulesMashAdd(c *Ctx, r *Report) {
 			innerBlocks = nil
 		}
 	}
-	r.check(len(og.Blocks) > 0 && !cfgReachExitAvoiding(og.Blocks[0], innerBlocks), "CANON", where, "every sequence is hashed", c.pos(outer.Pos()), "every iteration over seqs reaches the k-mer loop", "some sequences can skip the k-mer loop (a conditional around it): the sketch no longer depends on the k-mer content alone")
+	r.check(len(og.Blocks) > 0 && !cfgReachExitAvoiding(og.Blocks[0], innerBlocks), "CANON", where, "every sequence is hashed", c.pos(outerPos), "every iteration over seqs reaches the k-mer loop", "some sequences can skip the k-mer loop (a conditional around it): the sketch no longer depends on the k-mer content alone")
 	// hasher protocol inside the inner body
 	bVar := identObj(info, inner.Key)
 	// the hasher variable: receiver of Sum64 inside the Push argument
@@ -431,7 +528,7 @@ func rulesMashAdd(c *Ctx, r *Report) {
 			if methodCallOn(info, nd, mhAdd, "Sort") != nil {
 				sortBlocks = append(sortBlocks, b)
 			}
-			if nd == ast.Node(inner.X) || nd == ast.Node(outer.X) {
+			if nd == ast.Node(inner.X) || nd == outerMark {
 				loopBlocks = append(loopBlocks, b)
 			}
 		}
@@ -507,7 +604,7 @@ func rulesFromJaccard(c *Ctx, r *Report) {
 		}
 		nRet++
 		e := s.expr(rc.vals[0])
-		if rc.guard == "(0 == P0)" && e.Op == "const" && e.Leaf == "1" {
+		if (rc.guard == "(0 == P0)" || rc.guard == "!(0 != P0)") && e.Op == "const" && e.Leaf == "1" {
 			okZero = true
 			continue
 		}
